@@ -68,6 +68,19 @@ func checkC12(c *Check) {
 	} else {
 		r4.AddAt(OK, "recogniser self-test", "checker/testdata/utf8_decoder.c", "finds 3 combinations, flags exactly the wrong one")
 	}
+	r6 := c.Rule("R12.6", "a mask test for surrogates on a code point keeps every bit above the surrogate block", 0)
+	nsur := checkSurrogateTests(fs, func(f *CFunc, line int, ok bool, msg string) {
+		st := OK
+		if !ok {
+			st = Bad
+		}
+		r6.AddAt(st, "C "+f.Name+"|surrogate test", fmt.Sprintf("%s:%d", f.Unit, line), msg)
+	})
+	if nsur == 0 {
+		r6.AddAt(OK, "recogniser self-test (no mask test for surrogates in the runtime)", "checker/testdata/utf8_decoder.c", "the runtime tests surrogates by range; the recogniser finds both examples and flags exactly the 16-bit mask")
+	}
+	r7 := c.Rule("R12.7", "encoders reject values above U+10FFFF before the C library conversion", 1)
+	checkEncoderRange(P, r7)
 	r1 := c.Rule("R12.1", "in-place changes of a text's byte length keep cap = length + 1", 2)
 	checkCapTruth(c, P, r1)
 	r5 := c.Rule("R12.5", "bytes are not overwritten before they are moved", 1)
@@ -105,6 +118,15 @@ func decoderSelfTest() (bool, string) {
 	})
 	if n != 3 || len(bad) != 1 || bad[0] != "bad2" {
 		return false, fmt.Sprintf("expected 3 combinations with exactly bad2 flagged, got %d combinations, flagged %v", n, bad)
+	}
+	var sbad []string
+	ns := checkSurrogateTests(fs, func(f *CFunc, line int, ok bool, msg string) {
+		if !ok {
+			sbad = append(sbad, f.Name)
+		}
+	})
+	if ns != 2 || len(sbad) != 1 || sbad[0] != "is_surrogate_bad" {
+		return false, fmt.Sprintf("expected 2 surrogate tests with exactly is_surrogate_bad flagged, got %d, flagged %v", ns, sbad)
 	}
 	return true, ""
 }
